@@ -86,6 +86,12 @@ class Justifications:
         if ob.kind == 'optional-deref' and isinstance(ob.node, ast.Attribute) and \
                 isinstance(ob.node.value, ast.Attribute) and ob.node.value.attr == 'member_var':
             return self._member_var(fn, ob.node)
+        # ... handed to a function that requires it (a call-site precondition `<p>.member_var is None` of the callee)
+        if ob.kind == 'precondition' and isinstance(ob.node, ast.Call) and '.member_var` is None' in ob.text:
+            for a_ in list(ob.node.args) + [k_.value for k_ in ob.node.keywords]:
+                if isinstance(a_, ast.Attribute) and a_.attr == 'member_var' and isinstance(a_.value, ast.Name) and \
+                        f'`{ast.unparse(a_)}` is None' in ob.text and self._is_mts_element(fn, a_.value, ob.node):
+                    return self._cached('mts_member_var', self._mts_implies_member_var)
         # --- lines setter fed by trim_list ---------------------------------------------------------------------------
         if ob.kind == 'precondition' and 'TextBlock.lines.setter' in ob.text and fn.qualname == 'TextBlock.trim':
             return self._cached('trim', self._trim_sublist)
